@@ -303,20 +303,29 @@ Fault gen_gid_fault(Rng &r, const FontImage &fi, const std::vector<u32> &cps) {
     auto it = fi.tables.find(mktag("cmap")); if (it == fi.tables.end() || cps.empty()) return f;
     const Bytes &t = it->second; if (t.size() < 4) return f;
     unsigned n = be16(&t[2]);
-    for (unsigned i = 0; i < n && 4 + 8 * size_t(i) + 8 <= t.size(); ++i) {
-        size_t so = be32(&t[4 + 8 * i + 4]); if (so + 16 > t.size() || be16(&t[so]) != 4) continue;
-        size_t sx2 = be16(&t[so + 6]), ends = so + 14, starts = ends + sx2 + 2, idd = starts + sx2, iro = idd + sx2;
-        if (iro + sx2 > t.size()) continue;
-        for (int tries = 0; tries < 8; ++tries) {
-            u32 c = r.pick(cps); if (c > 0xFFFF) continue;
+    static const u32 targets[] = {0xFFF0, 0xFFFF, 0x8000, 0x7FFF}; u32 target = r.chance(1, 2) ? targets[r.below(4)] : 0;
+    if (!target) { auto mx = fi.tables.find(mktag("maxp")); u32 ng = mx != fi.tables.end() && mx->second.size() >= 6 ? be16(&mx->second[4]) : 100; target = ng + r.below(3) - 1; }
+    std::set<size_t> done;
+    for (int tries = 0; tries < 8 && f.a.empty(); ++tries) {
+        u32 c = r.pick(cps); if (c > 0xFFFF) continue;
+        for (unsigned i = 0; i < n && 4 + 8 * size_t(i) + 8 <= t.size(); ++i) {       // every format-4 subtable that maps c (the (0,3) and (3,1) ones are often distinct copies)
+            size_t so = be32(&t[4 + 8 * i + 4]); if (so + 16 > t.size() || be16(&t[so]) != 4 || done.count(so)) continue;
+            done.insert(so);
+            size_t sx2 = be16(&t[so + 6]), ends = so + 14, starts = ends + sx2 + 2, idd = starts + sx2, iro = idd + sx2;
+            if (iro + sx2 > t.size()) continue;
             for (size_t k = 0; k + 1 < sx2; k += 2) if (be16(&t[starts + k]) <= c && c <= be16(&t[ends + k])) {
-                static const u32 targets[] = {0xFFF0, 0xFFFF, 0x8000, 0x7FFF}; u32 target = r.chance(1, 2) ? targets[r.below(4)] : 0;
-                if (!target) { auto mx = fi.tables.find(mktag("maxp")); u32 ng = mx != fi.tables.end() && mx->second.size() >= 6 ? be16(&mx->second[4]) : 100; target = ng + r.below(3) - 1; }
-                u32 delta = (target - be16(&t[starts + k])) & 0xFFFF;
-                f.a = {i64(idd + k), i64(delta >> 8), i64(idd + k + 1), i64(delta & 0xFF), i64(iro + k), 0, i64(iro + k + 1), 0};
-                return f;
+                unsigned ro = be16(&t[iro + k]);
+                if (ro) {      // glyphIdArray entry of this one character
+                    size_t pos = iro + k + ro + 2 * size_t(c - be16(&t[starts + k]));
+                    if (pos + 2 <= t.size()) { f.a.push_back(i64(pos)); f.a.push_back(i64((target >> 8) & 0xFF)); f.a.push_back(i64(pos + 1)); f.a.push_back(i64(target & 0xFF)); }
+                } else {       // re-base the whole segment
+                    u32 delta = (target - be16(&t[starts + k])) & 0xFFFF;
+                    f.a.push_back(i64(idd + k)); f.a.push_back(i64(delta >> 8)); f.a.push_back(i64(idd + k + 1)); f.a.push_back(i64(delta & 0xFF));
+                }
+                break;
             }
         }
+        done.clear();
     }
     return f;
 }
